@@ -21,6 +21,26 @@
 #define LE_COUNT(x)    cpd.le_counts[static_cast<size_t>(LE_ ## x)]
 
 
+/**
+ * Builds the regular expression for a disable / enable processing marker.
+ * An expression the library refuses is a configuration error, not a reason to abort.
+ */
+static std::wregex processing_marker_regex(const std::string &text, const char *option_name)
+{
+   try
+   {
+      return(std::wregex(std::wstring(text.cbegin(), text.cend())));
+   }
+   catch (const std::regex_error &e)
+   {
+      fprintf(stderr, "%s: '%s' is not a valid regular expression (%s)\n",
+              option_name, text.c_str(), e.what());
+      log_flush(true);
+      exit(EX_CONFIG);
+   }
+}
+
+
 constexpr static auto LCURRENT = LTOK;
 
 
@@ -2096,8 +2116,7 @@ static bool parse_ignored(TokenContext &ctx, Chunk &pc)
       {
          std::wstring pc_wstring(pc.GetStr().get().cbegin(),
                                  pc.GetStr().get().cend());
-         std::wregex  criteria(std::wstring(ontext.cbegin(),
-                                            ontext.cend()));
+         std::wregex  criteria = processing_marker_regex(ontext, "enable_processing_cmt");
 
          found_enable_pattern = std::regex_search(pc_wstring.cbegin(),
                                                   pc_wstring.cend(),
@@ -2610,8 +2629,7 @@ int find_disable_processing_comment_marker(const UncText &text,
          std::wsmatch match;
          std::wstring pc_wstring(text.get().cbegin() + start_idx,
                                  text.get().cend());
-         std::wregex  criteria(std::wstring(offtext.cbegin(),
-                                            offtext.cend()));
+         std::wregex  criteria = processing_marker_regex(offtext, "disable_processing_cmt");
 
          std::regex_search(pc_wstring.cbegin(),
                            pc_wstring.cend(),
@@ -2663,8 +2681,7 @@ int find_enable_processing_comment_marker(const UncText &text,
          std::wsmatch match;
          std::wstring pc_wstring(text.get().cbegin() + start_idx,
                                  text.get().cend());
-         std::wregex  criteria(std::wstring(ontext.cbegin(),
-                                            ontext.cend()));
+         std::wregex  criteria = processing_marker_regex(ontext, "enable_processing_cmt");
 
          std::regex_search(pc_wstring.cbegin(),
                            pc_wstring.cend(),
